@@ -429,12 +429,14 @@ def _real(z):
 
 
 class SymArray(np.ndarray):
-    """ndarray(dtype=object) whose astype() to a float/int dtype is the identity
-    when it holds symbolic values (callers convert before handing to C code)."""
+    """ndarray(dtype=object) standing for a float64 array: astype() to a float/int dtype keeps the symbolic
+    values (callers convert before handing to C code) and has numpy's aliasing behaviour for an array that
+    already has the requested dtype -- a copy by default, the array itself with copy=False."""
 
     def astype(self, dtype, *a, **k):
         if self.dtype == object and any(isinstance(v, Sym) for v in self.ravel()):
-            return self
+            copy = k.get("copy", a[3] if len(a) > 3 else True)
+            return self if copy is False else self.copy()
         return np.ndarray.astype(self, dtype, *a, **k)
 
     def __array_wrap__(self, out_arr, context=None, return_scalar=False):
